@@ -319,7 +319,7 @@ func (s *sim) checkInput() {
 	}
 	// promptness: a healthy attached input stream has everything entered
 	in := s.liveIn()
-	if in == nil || in.proxyEnded || s.ctxDying(in) || s.inputClosed {
+	if in == nil || in.proxyEnded || s.ctxDying(in) || s.inputClosed || s.polled {
 		return
 	}
 	w := in.att.w
@@ -549,6 +549,9 @@ func (s *sim) checkMustEnd() {
 func (s *sim) checkLeak() {
 	if !s.leakDue && !s.draining && s.step%32 != 0 {
 		return
+	}
+	if s.polled {
+		return // (leakDue stays set: judged at the next synctest quiescence)
 	}
 	s.leakDue = false
 	for _, g := range simkit.BubbleGoroutines() {
